@@ -125,6 +125,15 @@ def clear_verified_claims(msg):
     return msg
 
 
+def drop_verified_copies(msg):
+    """A request object can not state what has been verified: members named like the verified
+    copy of a claim are removed from what was unpacked from it."""
+    _prefix = verified_claim_name("")
+    for key in [k for k in msg.keys() if k.startswith(_prefix)]:
+        del msg[key]
+    return msg
+
+
 class AuthorizationRequest(Message):
     """
     An authorization request
@@ -195,6 +204,7 @@ class AuthorizationRequest(Message):
             if isinstance(self["request"], str):
                 # Try to decode the JWT, checks the signature
                 oidr = AuthorizationRequest().from_jwt(str(self["request"]), **args)
+                drop_verified_copies(oidr)
 
                 # check if something is change in the original message
                 for key, val in oidr.items():
@@ -530,6 +540,7 @@ class JWTSecuredAuthorizationRequest(AuthorizationRequest):
                     pass
 
             _req = AuthorizationRequest().from_jwt(str(self["request"]), **args)
+            drop_verified_copies(_req)
             self.merge(_req, "strict")
             self[_vc_name] = _req
         elif "request_uri" not in self:
@@ -556,6 +567,7 @@ class PushedAuthorizationRequest(AuthorizationRequest):
                     pass
 
             _req = AuthorizationRequest().from_jwt(str(self["request"]), **args)
+            drop_verified_copies(_req)
             self.merge(_req, "lax")
             self[_vc_name] = _req
 
